@@ -771,7 +771,7 @@ pub fn run_c09(a: &Args, shared: &SharedReport) {
     let th = a.tier == "thorough";
     {
         let mut r = shared.lock().unwrap();
-        r.rule = "(i) Crash offered <=> up and budget left, on every constructed state x budget 0..3; (ii) crash step vs reference; (iii) differential crashed-vs-uncrashed on every (state, action, output); monitor over every reachable zoo state; (iv) the real bfs/dfs visit exactly the xplore-reachable set incl. every crashed-vector; non-trivial = state has a crashed actor or the action is a crash".into();
+        r.rule = "(i) Crash offered <=> up and budget left, on every constructed state x budget 0..3; (ii) crash step vs reference; (iii) differential crashed-vs-uncrashed on every (state, action, output); monitor over every reachable zoo state; (iv) the real bfs/dfs visit exactly the xplore-reachable set incl. every crashed-vector; (v) identical peers with a crash budget: dfs with .symmetry() evaluates every symmetry class of crashed configurations the plain search reaches; non-trivial = state has a crashed actor or the action is a crash".into();
         r.bounds = json!({"actors": "2 (constructed), 2-3 (zoo)", "budget": if th {"0..3"} else {"0..2"}, "zoo_depth": if th {14} else {10}, "outputs": "51 (command lists of length <=1 x 3 state ops)"});
     }
     let menu = output_menu(1, 7);
@@ -964,6 +964,8 @@ pub fn run_c09(a: &Args, shared: &SharedReport) {
             }
         }
     }
+    // (v) crash configurations up to symmetry: identical peers, `.symmetry()` against the plain search
+    crate::engines::c10::crashes_under_symmetry(a, shared, th);
 }
 
 // ---- replay ---------------------------------------------------------------------------------------
